@@ -427,7 +427,8 @@ func mergeInto(dst, src map[string]interface{}) {
 		}
 		switch x := v.(type) {
 		case float64:
-			if y, ok := o.(float64); ok {
+			if isNum(o) {
+				y := num(dst, k)
 				if strings.HasPrefix(k, "max_") {
 					if x > y {
 						dst[k] = x
@@ -474,6 +475,14 @@ func normalise(m map[string]interface{}) {
 			normalise(x)
 		}
 	}
+}
+
+func isNum(v interface{}) bool {
+	switch v.(type) {
+	case float64, int64, int:
+		return true
+	}
+	return false
 }
 
 func num(m map[string]interface{}, k string) float64 {
